@@ -182,6 +182,10 @@ class Flow:
         elif rk == "agg":
             ops = rv.get("ops", [])
             out.add(("agg", rv.get("adt") or rv.get("agg"), rv.get("variant")))
+            if rv.get("agg") == "closure":
+                # what a closure captures influences what the closure *does*; that is analysed in the closure's own body
+                # (its upvars are named there), not attributed to every value computed with the closure
+                ops = []
         for o in ops:
             p = place_of(o)
             if p is not None:
